@@ -236,6 +236,8 @@ class Line:
         self.fault_h2n = None          # f(bytes) -> bytes | None
         self.fault_n2h = None          # f(frame bytes) -> list[bytes]
         self.cut = False               # line cut: nothing is delivered any more
+        self.socket_like = False       # transport semantics for an exception escaping data_received
+        self.fatal_errors = []
 
     def host_wrote(self, data):
         self.host_to_ncp.append((self.loop.time(), data))
@@ -259,11 +261,26 @@ class Line:
         if self.cut or self.proto is None or self.proto._transport is None:
             return
         self.ncp_to_host.append((self.loop.time(), data))
-        self.proto.data_received(data)
+        if not self.socket_like:
+            # pyserial-asyncio calls protocol.data_received unguarded: an exception reaches the loop's handler
+            self.proto.data_received(data)
+            return
+        try:
+            self.proto.data_received(data)
+        except (SystemExit, KeyboardInterrupt):
+            raise
+        except BaseException as exc:  # noqa
+            # asyncio's socket transport: "Fatal error: protocol.data_received() call failed." -> the transport
+            # is closed and the protocol gets connection_lost(exc)
+            self.fatal_errors.append(repr(exc))
+            tr = self.proto._transport
+            if tr is not None and not tr.closing:
+                tr.closing = True
+                self.loop.call_soon(self.proto.connection_lost, exc)
 
 
 class Stack:
-    def __init__(self, ncp_version=8, path="/dev/ttyFAKE", ncp_up=True):
+    def __init__(self, ncp_version=8, path="/dev/ttyFAKE", ncp_up=True, ncp_timer=False):
         import bellows.ash
         import bellows.ezsp
         import bellows.uart
@@ -285,6 +302,30 @@ class Stack:
         self.ez._protocol = bellows.ezsp.v4.EZSPv4(self.ez.handle_callback, self.gw)
         self.reset_requests = []
         self.tasks = []
+        self.line.socket_like = path.startswith("socket://")
+        self._ncp_timer = None
+        if ncp_timer:
+            # the NCP's own acknowledgement timer: an unacknowledged DATA frame is retransmitted (UG101), five
+            # fruitless rounds put the NCP into the failed state
+            state = {"oldest": None, "rounds": 0}
+
+            def tick():
+                self._ncp_timer = self.loop.call_later(1.6, tick)
+                ncp = self.ncp
+                if ncp.failed or not ncp.unacked:
+                    state["oldest"], state["rounds"] = None, 0
+                    return
+                key = (ncp.unacked[0][0], bytes(ncp.unacked[0][1]))
+                if key != state["oldest"]:
+                    state["oldest"], state["rounds"] = key, 0
+                    return
+                state["rounds"] += 1
+                if state["rounds"] > 5:
+                    ncp.spontaneous("error", 0x51)
+                else:
+                    ncp.retransmit()
+                self.line.flush()
+            self._ncp_timer = self.loop.call_later(1.6, tick)
 
     def add_app_callback(self):
         def cb(name, *args):
@@ -311,6 +352,8 @@ class Stack:
         return True
 
     def close(self):
+        if self._ncp_timer is not None:
+            self._ncp_timer.cancel()
         for t in self.tasks:
             if not t.done():
                 t.cancel()
